@@ -37,6 +37,14 @@ thread_local! {
     static EPOCH: Cell<u32> = const { Cell::new(1) };
 }
 
+thread_local! {
+    static GARBAGE_DROPS: Cell<u64> = const { Cell::new(0) };
+}
+/// destructor calls on bit patterns that never were a Tracked (since the last call)
+pub fn take_garbage_drops() -> u64 {
+    GARBAGE_DROPS.with(|g| g.replace(0))
+}
+
 pub const F_CLONE: u8 = 1;
 pub const F_DROP: u8 = 2;
 pub const F_CALLBACK: u8 = 4;
@@ -208,24 +216,34 @@ pub struct Tracked {
     pub epoch: u32,
     /// a payload used for equality / ordering / keys; survives clone
     pub key: u32,
+    /// id ^ COOKIE: lets the destructor recognise a bit pattern that never was a Tracked (a slot the
+    /// container wrongly believes initialised) and report it instead of freeing a wild pointer
+    cookie: u32,
     heap: ManuallyDrop<Box<u32>>,
 }
+const COOKIE: u32 = 0x5EED_C0DE;
 
 impl Tracked {
     pub fn new(key: u32) -> Tracked {
         let id = mint(key);
         let _p = halloc::pause();
-        Tracked { id, epoch: epoch(), key, heap: ManuallyDrop::new(Box::new(id)) }
+        Tracked { id, epoch: epoch(), key, cookie: id ^ COOKIE, heap: ManuallyDrop::new(Box::new(id)) }
     }
     /// integrity of the heap part (reads freed memory under Miri/ASan if the value is stale)
     pub fn check(&self) -> bool {
-        **self.heap == self.id
+        self.cookie == self.id ^ COOKIE && **self.heap == self.id
     }
 }
 
 impl Drop for Tracked {
     fn drop(&mut self) {
         let _p = halloc::pause();
+        if self.cookie != self.id ^ COOKIE {
+            // not a value this harness created: garbage handed to a destructor
+            GARBAGE_DROPS.with(|g| g.set(g.get() + 1));
+            LEDGER.with(|l| l.borrow_mut().unknown.push(self.id));
+            return;
+        }
         if self.epoch != epoch() {
             // a value from an earlier program leaked on purpose and dropped late: free quietly
             unsafe { ManuallyDrop::drop(&mut self.heap) };
